@@ -182,6 +182,14 @@ def rule_Y3(ctx: Ctx) -> None:
     ctx.judge(g, ok and len(plots) == 1, {"transform": X.U(tr[0]) if tr else None, "x": xs, "y": ys},
               "every listed cell is transformed, in order; x is component 0 and y component 1 of the transformed points",
               "the line skips/reorders cells or swaps the axes")
+    skips = [n for n in g.node.body if isinstance(n, ast.If) and any(isinstance(x, ast.Return) for x in n.body)]
+    oks = []
+    for n in skips:
+        okk, sl = X.relation_in(n.test, ["len(path_format.path) == 0", "not len(path_format.path)", "len(path_format.path) < 1"])
+        oks.append((okk, sl["found"]))
+    ctx.judge(g, all(o for o, _ in oks), {"early_returns": [t for _, t in oks]},
+              "only an empty path is skipped: every listed cell - also a single one - is drawn",
+              "a one-cell path (start == end) is silently not drawn")
     h = ctx.index.func(f"{MP}._place_marked_coords")
     ok = "self._rowcol_to_coord(coord)" in X.U(h.node)
     ctx.judge(h, ok, {}, "markers use the same coordinate mapping")
@@ -218,6 +226,6 @@ def rule_Y4(ctx: Ctx) -> None:
 RULES = [
     Rule("C20.Y1", rule_Y1, floor=4, doc="strip polarity in both branches"),
     Rule("C20.Y2", rule_Y2, floor=5, doc="block/strip layout"),
-    Rule("C20.Y3", rule_Y3, floor=3, doc="axis mapping"),
+    Rule("C20.Y3", rule_Y3, floor=4, doc="axis mapping, every listed cell drawn"),
     Rule("C20.Y4", rule_Y4, floor=3, doc="delegation"),
 ]
